@@ -185,7 +185,7 @@ class Env:
 
 
 class Frame:
-    __slots__ = ("module", "cls", "self_obj", "func", "depth")
+    __slots__ = ("module", "cls", "self_obj", "func", "depth", "yields")
 
     def __init__(self, module, cls, self_obj, func, depth):
         self.module = module
@@ -193,11 +193,16 @@ class Frame:
         self.self_obj = self_obj
         self.func = func
         self.depth = depth
+        self.yields = None
 
 
 class Hooks:
     def intercept(self, interp, target, args, kwargs, node):
         """target: FuncInfo about to be interpreted, or ClassInfo about to be constructed."""
+        return NotImplemented
+
+    def intercept_py(self, interp, f, args, kwargs, node):
+        """f: a stdlib callable about to be applied."""
         return NotImplemented
 
     def on_text(self, interp, node, frame, value):
@@ -412,6 +417,11 @@ class Interp:
         raise PyRaise(TypeError, (f"{f!r} is not callable",), node)
 
     def _call_python(self, f, args, kwargs, node):
+        r = self.hooks.intercept_py(self, f, args, kwargs, node)
+        if r is not NotImplemented:
+            return r
+        if f is bool and len(args) == 1 and not kwargs:
+            return self.truth(args[0], node)
         # callbacks from the interpreted program given to stdlib functions
         def conv(a):
             if isinstance(a, (Closure, FuncRef)):
@@ -602,9 +612,7 @@ class Interp:
         depth = (self.stack[-1].depth + 1) if self.stack else 0
         if depth > self.MAX_DEPTH:
             raise PyRaise(RecursionError, (func.qualname,), node)
-        for sub in ast.walk(func.node):
-            if isinstance(sub, (ast.Yield, ast.YieldFrom)):
-                raise Incomplete(f"generator {func.qualname} is not interpreted")
+        is_gen = _is_generator(func.node)
         self_obj = None
         if func.cls is not None and not func.is_static and args:
             first = func.params[0] if func.params else None
@@ -613,6 +621,11 @@ class Interp:
         frame = Frame(func.module, func.cls, self_obj, func, depth)
         env = Env(getattr(func, "closure_env", None))
         self._bind(func.node, args, kwargs, env, frame, func.qualname, node)
+        if is_gen:
+            # generators are evaluated eagerly: the list of yielded values stands for the iterator
+            frame.yields = []
+            self._run_body(func.node.body, env, frame)
+            return frame.yields
         return self._run_body(func.node.body, env, frame)
 
     def _call_closure(self, c: Closure, args, kwargs, node):
@@ -972,6 +985,11 @@ class Interp:
                 d[self.eval(e.key, en, frame)] = self.eval(e.value, en, frame)
             self._comp(e.generators, 0, env, frame, add)
             return d
+        if t is ast.Yield:
+            if frame.yields is None:
+                raise Incomplete("yield outside an interpreted generator")
+            frame.yields.append(self.eval(e.value, env, frame) if e.value is not None else None)
+            return None
         if t is ast.Starred:
             raise Incomplete("starred expression outside call/display")
         if t is ast.NamedExpr:
@@ -1165,6 +1183,18 @@ class _OrderedSet(set):
 
     def __sub__(self, o):
         return self.difference(o)
+
+
+def _is_generator(fnode):
+    stack = list(fnode.body)
+    while stack:
+        n = stack.pop()
+        if isinstance(n, (ast.Yield, ast.YieldFrom)):
+            return True
+        if isinstance(n, (ast.FunctionDef, ast.Lambda, ast.ClassDef)):
+            continue
+        stack.extend(ast.iter_child_nodes(n))
+    return False
 
 
 def _plain(x):
